@@ -50,7 +50,7 @@ def st_expr_at(ev, st):
     return getattr(ev, '_sub', None) or st.expr(ev.node, ev.frame)
 
 
-def annotate(path, heap=True):
+def annotate(path, heap=True, versioned=()):
     """replay the path and store on every cond/call/return event the substituted
     expression valid *at that point* (ev._sub) ; returns the final state"""
     def on(i, ev, st):
@@ -64,7 +64,7 @@ def annotate(path, heap=True):
             ev._subt = st.expr(ev.a, ev.frame, heap=False) if not isinstance(ev.a, ast.Name) else ev.a
             ret, rfr = ev.b
             ev._sub = st.expr(ret, rfr, heap=heap) if (ret is not None and ret is not _UNKNOWN) else None
-    return replay(path, on, heap=heap)
+    return replay(path, on, heap=heap, versioned=versioned)
 
 
 def ret_expr(path):
@@ -94,3 +94,14 @@ def calls_named(node, names):
 def callee_name(call):
     f = call.func
     return f.attr if isinstance(f, ast.Attribute) else (f.id if isinstance(f, ast.Name) else None)
+
+
+def annotated_copy(path, heap=True, versioned=()):
+    """annotate a private copy of the path (events are shared between paths with a common
+    prefix, so a second annotation mode must not overwrite the first)"""
+    from .paths import Path
+    q = Path()
+    q.ev = [Ev(e.kind, e.node, e.frame, e.a, e.b) for e in path.ev]
+    q.exit, q.env, q.fn, q.nf = path.exit, path.env, path.fn, path.nf
+    st = annotate(q, heap=heap, versioned=versioned)
+    return q, st
